@@ -163,3 +163,65 @@ echo $h;`,
 }
 
 func describeLadder(name string, depth int) string { return fmt.Sprintf("%s^%d", name, depth) }
+
+// ---- (b') string-body tokens -------------------------------------------------------------------
+//
+// The lexer's string scanners and the preprocessor's interpolation pass look ahead several
+// characters inside string bodies ($.SERVER( , {$ , ${ , $x[ , $x-> , @{ , \x \u{ octal escapes,
+// heredoc terminators). For every such trigger, string tokens are generated whose body ENDS at
+// every prefix of the trigger (and continues past it), in every string container, after a few
+// leads (plain text, one backslash, two backslashes).
+var strTriggers = []string{
+	"$.SERVER($a)", "$.SERVER(f($a))x", "$.SERVERx",
+	"{$a}", "{$a->b}", "{$a->b()}", "{$a[0]}", "{$a[\"k\"]}", "{$a{$b}}", "{$1}", "{$", "${a}", "${a[0]}",
+	"$a[0]", "$a[k]", "$a->b", "$a->b->c", "$a::b", "$ab_1", "$1", "$中", "$é",
+	"@{f()}", "@{a{b}c}", "@{",
+	"\\x41", "\\xZ", "\\u{41}", "\\u{", "\\101", "\\0", "\\8", "\\$a", "\\{$a}", "\\\"", "\\'", "\\e", "\\n", "\\",
+	"<?php", "?>", "/*", "//", "#",
+}
+
+var strLeads = []string{"", "a", "\\", "\\\\"}
+
+// containers: %s is the body
+var strContainers = []struct{ open, close string }{
+	{`"`, `"`}, {`'`, `'`}, {"`", "`"},
+	{"<<<EOT\n", "\nEOT"}, {"<<<'EOT'\n", "\nEOT"}, {"<<<\"EOT\"\n", "\nEOT"},
+}
+
+// unterminated / partially terminated heredocs: every prefix of the closing sequence
+var heredocTails = func() []string {
+	full := "\n  EOT;\n"
+	var r []string
+	for i := 0; i <= len(full); i++ {
+		r = append(r, "<<<EOT\nx $a y"+full[:i])
+	}
+	return r
+}()
+
+var strTokens = func() []string {
+	seen := map[string]bool{}
+	var out []string
+	add := func(s string) {
+		if !seen[s] {
+			seen[s] = true
+			out = append(out, s)
+		}
+	}
+	for _, tr := range strTriggers {
+		rs := []rune(tr)
+		for n := 1; n <= len(rs); n++ {
+			body := string(rs[:n])
+			for _, lead := range strLeads {
+				for _, c := range strContainers {
+					add(c.open + lead + body + c.close)
+				}
+			}
+		}
+	}
+	for _, h := range heredocTails {
+		add(h)
+	}
+	return out
+}()
+
+var strSuffixes = []string{"", " ;", " . 1 ;"}
